@@ -21,13 +21,13 @@ CHECKS = {
         note='Grid points only (<= 4-decimal parameters); ConvergenceError counts as indeterminate. PC: household-side series. A RunMethod2 give-up within its own 100-sweep cap is a violation only where a reference iteration of the same scheme settles within 60 sweeps.'),
     'C13': dict(
         category='exploration', design_ref='DESIGN.md section 3, C13',
-        technique='bounded-exhaustive enumeration of (expression, renaming map) pairs for the three public utilities and for their callers (Term/Equation/EquationBlock.ReplaceTokensFromLookup, the alias substitution of the reduction, the qualification step of Sector._CreateFinalEquations); independent regex scanner + evaluation under renamed environments',
+        technique='bounded-exhaustive enumeration of (expression, renaming map) pairs for the three public utilities and for their callers (Term/Equation/EquationBlock.ReplaceTokensFromLookup, the alias substitution of the reduction, the qualification step of Sector._CreateFinalEquations, EquationParser.GenerateTokenList, the model-level alias fix-up, a caller editing a returned name list); independent regex scanner + evaluation under renamed environments',
         text='Several million pairs: all expressions of <= 3 tokens over the full atom alphabet and <= 5 tokens over a reduced one, compact and padded, x all maps of size <= 2 (swaps, chains, prefixes, absent names, placeholder-shaped targets).',
         note='Trusted: the 10-line scanner regex and Python eval. Output spacing is free; comparison is token-wise.'),
     'C16': dict(
         category='model_checking', design_ref='DESIGN.md section 3, C16',
         technique='exhaustive enumeration of call histories (retrieval / flag changes / caller-side mutation / rendering) replayed on freshly solved real objects; immutable snapshot reference compared after every transition',
-        text='All histories (depth 3 quick / 4 thorough over 34 operations, incl. renderings with the default format, on Model.GetTimeSeries / EquationSolver / TimeSeriesHolder, depth 4 on a BaseSolver subclass): the same (one level shallower) on a solver stepped half-way whose stored series are of unequal length: return value == snapshot slice, stored holders == snapshot, rendering == independent rendering of the snapshot and repeatable.',
+        text='All histories (depth 3 quick / 4 thorough over 37 operations, incl. renderings with the default format, a cutoff flag of 0 and unrelated holders / a traced solver created elsewhere, on Model.GetTimeSeries / EquationSolver / TimeSeriesHolder, depth 4 on a BaseSolver subclass): the same (one level shallower) on a solver stepped half-way whose stored series are of unequal length: return value == snapshot slice, stored holders == snapshot, rendering == independent rendering of the snapshot and repeatable.',
         note='Trusted: the deep snapshot and the 10-line reference renderer.'),
     'C17': dict(
         category='model_checking', design_ref='DESIGN.md section 3, C17',
@@ -37,53 +37,53 @@ CHECKS = {
     'C19': dict(
         category='exploration', design_ref='DESIGN.md section 3, C19',
         technique='bounded-exhaustive table enumeration on the real TimeSeriesHolder and solver wrapper, parsed back by an independent TSV parser',
-        text='Every subset of <= 4 of 11 series names x 9 value rotations x 3 length profiles x 5 formats, and the history render -> store another series -> render; one solver object used for two blocks; horizons {0,1,4} imposed from outside (solver attribute before parsing, Model.MaxTime); solved blocks through EquationSolver.GenerateCSVtext(format), holder and step-trace; header, order, row count, every cell.',
+        text='Every subset of <= 4 of 11 series names x 9 value rotations x 3 length profiles x 5 formats, and the history render -> store another series -> render; one solver object used for two blocks; horizons {0,1,4} imposed from outside (solver attribute before parsing, Model.MaxTime); another holder with its own axis name elsewhere; solved blocks through EquationSolver.GenerateCSVtext(format), holder and step-trace; header, order, row count, every cell.',
         note='Alphabetical = code-point or case-insensitive order.'),
     'C02': dict(
         category='exploration', design_ref='DESIGN.md section 3, C02',
         technique='bounded-exhaustive enumeration of equation blocks x solver configurations run on the real EquationSolver; three-valued residual oracle derived from the stop test',
         text='Every block of the menu product (2 and 3 variables, plain and dressed with lag/exogenous/decorative chain/alias/initial condition) x reduction x tolerance x cap, plus '
-             'divergence, transient-error, non-linear and user-function families, one solver re-used for two systems, two solvers registering different functions under one name, steady-state search in front of a tight solve, tolerance given through the solver attribute after parsing, decorative values that are NaN: on a normal return every value must be finite, lag/exogenous/derived-only variables exact, simultaneous residuals <= 2B.',
+             'divergence, transient-error, non-linear and user-function families, one solver re-used for two systems, two solvers registering different functions under one name, steady-state search in front of a tight solve, tolerance given through the solver attribute after parsing (incl. 0 on a weakly coupled system), decorative values that are NaN, a user function looked up by a text label next to an alias: on a normal return every value must be finite, lag/exogenous/derived-only variables exact, simultaneous residuals <= 2B.',
         note='Trusted: the bound B (proved from the documented stop test), Python eval as the meaning of a right-hand side. Gap 2B/20B; zero indeterminate cases on the current tree.'),
     'C03': dict(
         category='exploration', design_ref='DESIGN.md section 3, C03',
         technique='bounded-exhaustive differential enumeration: every block of the alias/decorative feature product solved with reduction on and off by the real solver, series compared value by value',
         text='Every block of the feature product: core x alias target kind x chain length x declaration order x alias user x decorative tree x initial-condition position x lag source; same variable set, '
-             'k=0 exactly equal, k>=1 bit-for-bit (acyclic) or within a gap at tolerance 1e-10 (cyclic); reduction applied twice; steady-state search in front; int-valued decorative constants; a user function with a text label (string literals through the reduction).',
+             'k=0 exactly equal, k>=1 bit-for-bit (acyclic) or within a gap at tolerance 1e-10 (cyclic); reduction applied twice; steady-state search in front; int-valued decorative constants; a user function with a text label (string literals through the reduction); blocks written with the initial-condition lines first; a NaN read-out.',
         note='Alias cycles excluded (documented user error). Trusted: nothing beyond the two runs of the implementation itself.'),
     'C05': dict(
         category='model_checking', design_ref='DESIGN.md section 3, C05',
         technique='explicit enumeration of construction histories (request point x variable x owner x embedding places x country configuration) on the real objects + all topology specs; closure/canonical-name/placeholder/meaning oracle on the emitted text via the independent reader',
         text='Every construction history of the product: GetVariableName requested right after the sector exists / after all sectors / after early full-code generation (LogInfo), embedded in up to 2 (quick) / 3 (thorough) of 13 places (incl. two placeholders in one row, a name clash, a caller editing a returned list), '
-             'with one country, two countries, an external sector, a country / external sector added after the early generation, or an unrelated Model started mid-way; plus every topology spec within the deviation bound. Every left-hand side once, canonical names, closed, no _<id>__ token, meaning preserved (judged through the record kept by the harness of which variable every handed-out name stands for; one name for two variables is a violation).',
+             'with one country, two countries, an external sector, a country / external sector added after the early generation, or an unrelated Model started mid-way; sector-local variables spelled like the time names; plus every topology spec within the deviation bound. Every left-hand side once, canonical names, closed, no _<id>__ token, meaning preserved (judged through the record kept by the harness of which variable every handed-out name stands for; one name for two variables is a violation).',
         note='Trusted: mc/exact.read_block and evaluator. A name that was canonical when handed out and is embedded by the user before a further country is added cannot be rewritten by any library; that history is outside the alphabet.'),
     'C10': dict(
         category='exploration', design_ref='DESIGN.md section 3, C10',
         technique='bounded-exhaustive enumeration of input forms (exogenous specification x length x initial condition position/value x horizon source x time variable x reduction) on the real solver and Model; exact == oracle',
-        text='Every case of the input-form product through EquationSolver and Model (incl. one solver re-used for two blocks): lengths horizon+1, k axis, exogenous series equal to the supplied prefix, k=0 equal to the stated initial condition for 7 kinds of variable (9 significant digits through Model, initial gold stock), lag identity (also for sources named like the lag spelling), t == k, exogenous specifications as strings and as Python objects, '
+        text='Every case of the input-form product through EquationSolver and Model (incl. one solver re-used for two blocks): lengths horizon+1, k axis, exogenous series equal to the supplied prefix, k=0 equal to the stated initial condition for 7 kinds of variable (9 significant digits through Model, initial gold stock), lag identity (also for sources named like the lag spelling), t == k, exogenous specifications as strings and as Python objects, a path specified twice, a horizon set on the model's own solver, '
              'short/unevaluable input rejected with no period produced.',
         note='An int scalar may be rejected or broadcast. Rejection = any exception.'),
     'C11': dict(
         category='exploration', design_ref='DESIGN.md section 3, C11',
         technique='bounded-exhaustive enumeration of failure families x caps x tolerances (sweep count read from the public step trace, wall-clock watchdog), of all small affine contractions, and of the complete stdlib name lists',
-        text='(a) 11 failure families (also with the steady-state search in front) switched on in period 1..3 x 7 caps x 2 tolerances x reduction: ValueError/ConvergenceError (a normal return with non-finite values is a violation), <= cap+1 sweeps, equal-length series identical to the shorter-horizon solve; '
-             '(b) all two-variable contractions of the alphabet + n=12 worst cases + non-linear contractions solved within the default cap; (c) 251 names x 3 positions + 182 RHS tokens x reduction x entry point, 10 ill-formed declarations refused with no numbers.',
+        text='(a) 11 failure families (also with the steady-state search in front) switched on in period 1..3 x 7 caps x 2 tolerances x reduction: ValueError/ConvergenceError (a normal return with non-finite values is a violation; the same failure with the failing period traced), <= cap+1 sweeps, equal-length series identical to the shorter-horizon solve; '
+             '(b) all two-variable contractions of the alphabet + n=12 worst cases + non-linear contractions solved within the default cap; (c) 251 names x 3 positions + 182 RHS tokens x reduction x entry point, 16 ill-formed declarations (incl. ambiguous suppliers without balance, foreign residual supplier, currencies whose codes contain one another) refused with no numbers.',
         note='A case exceeding 20 s wall-clock counts as unbounded work. Contraction => convergence is covered on the stated grid, not proved over the reals.'),
     'C14': dict(
         category='exploration', design_ref='DESIGN.md section 3, C14',
         technique='bounded-exhaustive enumeration of line orders x spacings x lag spellings x hostile comments; real EquationParser compared with the independent classifier; comment-free twin differential; Model description differential',
         text='All permutations of 6-line endogenous sections (incl. names ending in 0, a variable T, arithmetic on the time axis next to lag spellings, a user time axis, comment-only lines containing "=", malformed lines), 3 spacings, 3 lag spellings, 17 hostile comment texts (incl. VT/FF/CR) on every line, '
-             '8 marker spellings, every block also on a parser object that parsed and reduced another block before (all parser lists and bookkeeping compared), descriptions/long names through Model.',
+             '8 marker spellings, every block also on a parser object that parsed and reduced another block before (all parser lists and bookkeeping compared), run-parameter lines that are not integer literals, several malformed lines per block, descriptions/long names through Model.',
         note='Trusted: mc/exact.read_block (strips the comment first). Lags inside larger expressions and names containing the marker word are outside the alphabet (as in the property).'),
     'C15': dict(
         category='exploration', design_ref='DESIGN.md section 3, C15',
         technique='bounded-exhaustive enumeration of one-/two-state recursive systems x search settings on the real CalculateInitialSteadyState; accepted states stepped once more with exogenous frozen; deep snapshot comparison',
-        text='Every (system, settings) pair of the alphabet (one-/two-state systems with read-outs, bare one-state systems incl. quadratic and overflowing ones; horizons 1, 2, 3, 20, 200; tolerances 1e-3, 1e-4, 1e-9; an exogenous input that steps after k=0): acceptance implies every installed value is finite and no non-excluded variable moves by more than 2 tol (abs or rel; violated only if both >= 20 tol), rejection is NoEquilibriumError/ValueError, solver inputs untouched.',
+        text='Every (system, settings) pair of the alphabet (one-/two-state systems with read-outs, bare one-state systems incl. quadratic and overflowing ones; horizons 1, 2, 3, 20, 200; tolerances 1e-3, 1e-4, 1e-9; an exogenous input that steps after k=0; a within-period loop at a tight per-period tolerance; read-outs named like the excluded time names): acceptance implies every installed value is finite and no non-excluded variable moves by more than 2 tol (abs or rel; violated only if both >= 20 tol), rejection is NoEquilibriumError/ValueError, solver inputs untouched.',
         note='Tolerances {1e-4, 1e-3}: with a looser steady-state tolerance the search solver (which uses it as its sweep tolerance) leaves read-outs one sweep stale, which would make the verdict depend on solver accuracy rather than on steadiness.'),
     'C20': dict(
         category='exploration', design_ref='DESIGN.md section 3, C20',
         technique='bounded-exhaustive enumeration of equation blocks -> real IterativeMachineGenerator -> import and run the emitted module (twice per generator object); residual/exactness/table oracle, differential against the in-process solver',
-        text='Every (block, configuration) pair of the menu product (dresses incl. loop-state names, upper-case look-alikes of the reserved names and equal-and-opposite transfers), two emissions each, RunOneStep-then-main on the emitted class, one generator object re-used for a second block: module runs, MaxTime+1 values, residuals <= 2B, exogenous exact, agreement with EquationSolver from equal k=0 values, k=0 values as stated, header t-first without duplicates.',
+        text='Every (block, configuration) pair of the menu product (dresses incl. loop-state names, upper-case look-alikes of the reserved names, every smooth math function and equal-and-opposite transfers; tolerance 0 on loop-free blocks; horizon 0), two emissions each, RunOneStep-then-main on the emitted class, one generator object re-used for a second block: module runs, MaxTime+1 values, residuals <= 2B, exogenous exact, agreement with EquationSolver from equal k=0 values, k=0 values as stated, header t-first without duplicates.',
         note='Blocks restricted to contraction factor <= 0.5 (the generated solver has no damping). Files live under /var/tmp/sfcv-c20-<pid> and are removed.'),
     'C01': dict(
         category='model_checking', design_ref='DESIGN.md section 3, C01',
@@ -103,7 +103,7 @@ CHECKS = {
     'C07': dict(
         category='model_checking', design_ref='DESIGN.md section 3, C07',
         technique='exhaustive enumeration of multi-currency topologies x exchange-rate paths; exact rational solution; term-level and FX-net identities in every (spec, period) state; negative family without ExternalSector',
-        text='All two-/three-zone specs in the bound with a cross-currency gift (explicit or default income flags), import supplier, (also with the foreign producer as residual supplier), gold government or build-time gold purchase, with unit / constant / time-varying '
+        text='All two-/three-zone specs in the bound with a cross-currency gift (explicit or default income flags), import supplier, (also with the foreign producer as residual supplier or on a zero quota), gold government or build-time gold purchase at a moving non-unit gold price, with unit / constant / time-varying '
              'rates: receiver credited amount*XR_s/XR_r, sender debited, sum NET_c*XR_c + NET_NUMERAIRE == 0, numeraire position 0 for paired flows, cross-rate '
              'variables correct, gold market side (NETOZ, GOLDPRICE) correct; the same specs without ExternalSector must raise a LogicError with no series produced.',
         note='Trusted: mc/exact.py, mc/topo.py. Bounded: deviation bound 2/3 (two zones), 1/2 (three zones), horizon 3.'),
@@ -118,7 +118,7 @@ CHECKS = {
         category='model_checking', design_ref='DESIGN.md section 3, C18',
         technique='exhaustive enumeration of (economy, renaming map) pairs and of ordered sets of embedded economies; exact rational differential between the renamed / joint build and the base / stand-alone build',
         text='16 economies x all renaming maps changing <= 2 (quick) / 3 (thorough) codes (incl. prefixes of other codes and code swaps), single- and multi-country; all ordered '
-             'selections of 2..3 economies from 5 (currency strings containing one another) plus two treasury+central-bank economies together x external sector none/first/last; bundled builders SIM/SIMEX1/PC embedded next to another country; '
+             'selections of 2..3 economies from 5 (currency strings containing one another) plus two treasury+central-bank economies together, two economies whose codes differ only in letter case (string API), an unrelated Model() started mid-declaration x external sector none/first/last; bundled builders SIM/SIMEX1/PC embedded next to another country; '
              'solutions must coincide variable by variable under the name map / prefix rule, equations must not reference another economy.',
         note='Trusted: mc/exact.py, mc/topo.py, the name-map functions in props/c18.py. The PC builder (non-affine) is compared on float series at tolerance 1e-12 with a gap oracle.'),
     'C12': dict(
@@ -126,7 +126,7 @@ CHECKS = {
         technique='explicit-state BFS over AddTerm histories on the real Equation class with state dedup, reference-model comparison at every transition; exhaustive list enumeration for create_equation_from_terms',
         text='Every AddTerm history up to the depth bound from every leading form is executed on the real Equation/Term classes; each '
              'reached state is compared (exact rationals, 3 prime valuations) with leading expression + signed sum of the added terms. '
-             'All term lists up to the length bound go through create_equation_from_terms (value preserved, argument unchanged). Sector-variable histories: additions interleaved with renaming and replacement of the right-hand side.',
+             'All term lists up to the length bound go through create_equation_from_terms (value preserved, argument unchanged). Sector-variable histories: additions interleaved with renaming and replacement of the right-hand side. Constants with more than six significant digits, bracketed and comparison leading expressions.',
         note='Trusted: stdlib ast/fractions and the 200-line evaluator in mc/exact.py. Bounded: term alphabet of 23 spellings, 51 leading forms, depth 3 (quick) / 4 (thorough); Term-object histories over 2 equations to depth 4/5; arithmetic leading expressions only.'),
 }
 
